@@ -19,4 +19,7 @@ func verifInstallMon(v *verifMon) { termMon = v.m }
 
 func verifClientHandler(f base.ClientFactory, conn net.Conn) { clientHandler(f, conn, nil) }
 
-var _ = pt.Args{}
+func verifServerHandler(f base.ServerFactory, conn net.Conn, info *pt.ServerInfo) {
+	serverHandler(f, conn, info)
+}
+
